@@ -78,6 +78,31 @@ CLAIMED = {
             "radial integrals; aberrated phase formula; interpolation-mode dispatch total and rule-conforming; Lens "
             "numexpr expression strings == NumPy branch term for term.",
             '§2 C08', TRUST + "; MieLens vs Lens(Mie) numerical agreement and quadrature convergence outside"),
+    'C02': ('translation_validation',
+            "The pure-Python Mie series (a_l, b_l over uninterpreted Bessel atoms, pi_l/tau_l recurrences, S_perp/S_par "
+            "sums) equals the textbook series written independently, for l<=6 and all x, m, theta; layering by "
+            "thickness or outer radius hands identical (m, x) arrays to the coefficient kernel (1-4 layers).",
+            '§2 C02', TRUST + "; agreement of the Fortran solvers and Bessel values outside the claim"),
+    'C03': ('translation_validation',
+            "cross_sections / asymmetry_parameter / Mie.raw_cross_sections equal Bohren-Huffman's series for arbitrary "
+            "complex coefficients (l<=6); ext = sca + abs; order and 2pi/k^2 prefactor with k = 2 pi n_m/lambda; "
+            "sca >= 0; |g| <= 1 for l<=2.",
+            '§2 C03', TRUST + "; optical theorem vs Fortran amplitudes, absorption sign, Rayleigh limit outside"),
+    'C04': ('model_checking',
+            "Every argument handed to a kernel by imageformation, Mie, MieLens, Multisphere and T-matrix glue is "
+            "invariant under a symbolic length scale c>0 and under (n,n_m,lambda)->(n/n_m,1,lambda/n_m); cross "
+            "sections scale with c^2 - for all symbolic geometries.",
+            '§2 C04', TRUST + "; homogeneity of the kernels themselves outside; T-matrix only through axi/lam ratio"),
+    'C07': ('model_checking',
+            "With a kernel that is an uninterpreted function of the position arguments, the hologram value at a "
+            "location is identical via grid / scrambled points / cropped grid / pixel subsets; subsets keep values, "
+            "coordinates, metadata, original axes; RNG call contract; purity - shapes and selections enumerated, "
+            "values and sphere position symbolic.",
+            '§2 C07', TRUST + "; discrete structure enumerated, not symbolic"),
+    'C09': ('model_checking',
+            "Default-theory rule: Multisphere iff max separation <= 30 * largest radius (2 and 3 spheres, symbolic), "
+            "single/one-sphere/layered/missing-parameter/spheroid/cylinder/other/non-scatterer cases, 'auto' == explicit.",
+            '§2 C09', TRUST + "; theory classes = markers; SCSMFO order independence / covariance outside"),
 }
 
 NOT_YET = {}
